@@ -193,6 +193,9 @@ func (p *storeProp) Gen(r *Rand, tier string, idx int) any {
 		} else {
 			op = SOp{Op: pick(r, readers), Node: r.Intn(nn), Ref: randRef()}
 		}
+		if sp.Tasks == 1 && sp.Kind == "oci" && sp.AutoSave && p.id == "C08" && (op.Op == "push" || op.Op == "tag" || op.Op == "retag" || op.Op == "untag" || op.Op == "delete" || op.Op == "gc" || op.Op == "saveindex") && r.Chance(0.1) {
+			op.FailMut = r.Range(1, 4)
+		}
 		if sp.Tasks == 1 && sp.Kind == "oci" && p.id != "C06" && p.id != "C09" && r.Chance(0.08) {
 			op = SOp{Op: "reopen", How: pick(r, []string{"new", "fs", "tar"})}
 		}
@@ -456,8 +459,34 @@ func (sr *storeRun) sequential() *Verdict {
 			}
 			want := sr.model.Clone()
 			exp := want.Apply(op)
+			eioBefore := 0
+			if op.FailMut > 0 {
+				eioBefore = simos.Snapshot().Fired["eio"]
+				simos.SetFailAtMut(op.FailMut)
+			}
 			got := execOp(ctx, sr.store, g, op)
 			sr.rc.Logf("step %d %s -> %s (model %s)", i, op, got, exp)
+			if op.FailMut > 0 {
+				simos.SetFailAtMut(0)
+				if simos.Snapshot().Fired["eio"] > eioBefore {
+					// a disk operation inside this store operation failed. What the live store
+					// and a reopened one answer from here on is no longer promised to agree;
+					// what is promised is a valid layout on disk at this quiescent point.
+					sr.info.Probes["disk_error_inside_operation"]++
+					sr.info.Nontrivial = true
+					for k, c := range simos.Snapshot().Fired {
+						if strings.HasPrefix(k, "eio") {
+							sr.info.Faults[k] += c
+						}
+					}
+					var d string
+					simrt.Observe(func() { d = checkLayout(sr.dir) })
+					if d != "" {
+						v = violation("layout-invalid", "", "after step %d %s, in which disk operation %d failed with EIO (result %s): %s\nhistory: %v", i, op, op.FailMut, got, d, opsString(sp.Ops[:i+1]))
+					}
+					return
+				}
+			}
 			useModel := sr.p.id == "C06" || sr.p.id == "C09"
 			if useModel && want.Ambiguous != "" {
 				sr.info.Probes["unjudged_corner_reached"]++
